@@ -8,94 +8,94 @@ FAMILIES = {
                       invariants=['Inv_Oracle', 'Inv_PositivePeriod'],
                       properties=['P_ProposeRule', 'P_DeleteRule', 'P_WindowHonoured', 'P_FinalIrreversible',
                                   'P_NoEffectOnReject', 'P_AuthOnlyIf'],
-                      failcap=dict(quick=1, thorough=2), timeout=dict(quick=420, thorough=3000)),
+                      failcap=dict(quick=1, thorough=2), timeout=dict(quick=1680, thorough=9000)),
     'l1.ledger': dict(module='MC_L1', fam='ledger', walker='l1-walk', scale=U63,
                       invariants=[],
                       properties=['P_EscrowDelta', 'P_OnlyWdDebits', 'P_Isolation', 'P_Bystanders', 'P_SeqGapFree', 'P_OnlyExisting',
                                   'P_NewBridgeClean', 'P_EventFaithful', 'P_PairDeterministic', 'P_NoEffectOnReject'],
-                      failcap=dict(quick=1, thorough=2), timeout=dict(quick=420, thorough=3000)),
+                      failcap=dict(quick=1, thorough=2), timeout=dict(quick=1680, thorough=9000)),
     'l1.claims': dict(module='MC_L1', fam='claims', walker='l1-walk', scale=U63,
                       invariants=[],
                       properties=['P_Soundness', 'P_NoEffectOnReject'],
-                      failcap=dict(quick=1, thorough=2), timeout=dict(quick=420, thorough=3000)),
+                      failcap=dict(quick=1, thorough=2), timeout=dict(quick=1680, thorough=9000)),
     'l1.auth': dict(module='MC_L1', fam='auth', walker='l1-walk', scale=U63,
                     invariants=[], properties=['P_AuthOnlyIf'],
-                    failcap=dict(quick=1, thorough=2), timeout=dict(quick=420, thorough=3000)),
+                    failcap=dict(quick=1, thorough=2), timeout=dict(quick=1680, thorough=9000)),
     'l1.perm': dict(module='MC_L1', fam='perm', walker='l1-walk', scale=U63,
                     invariants=[], properties=['P_GrantOnlyIf'],
-                    failcap=dict(quick=1, thorough=2), timeout=dict(quick=420, thorough=3000)),
+                    failcap=dict(quick=1, thorough=2), timeout=dict(quick=1680, thorough=9000)),
     'l1.window': dict(module='MC_L1', fam='window', walker='l1-walk', scale=U63, tickscale=str(2**33),
                       invariants=['Inv_Oracle', 'Inv_PositivePeriod'], properties=['P_WindowHonoured', 'P_FinalIrreversible', 'P_DeleteRule', 'P_ProposeRule'],
-                      failcap=dict(quick=1, thorough=2), timeout=dict(quick=300, thorough=1800)),
+                      failcap=dict(quick=1, thorough=2), timeout=dict(quick=1500, thorough=7200)),
     'l1.trees': dict(module='MC_L1', fam='trees', walker='l1-walk', scale=U63,
                      invariants=[], properties=['P_Soundness', 'P_EscrowDelta', 'P_NoEffectOnReject'],
-                     failcap=dict(quick=1, thorough=2), timeout=dict(quick=420, thorough=3000)),
+                     failcap=dict(quick=1, thorough=2), timeout=dict(quick=1680, thorough=9000)),
     # ---- unbounded-integer inductive invariant of the output-oracle fragment (Apalache) -------------
     'l1.oracle-ind': dict(kind='apalache', module='OutputOracleInd',
                           obligations=[('Init => IndInv', 'Init', 'IndInv', 0), ("IndInv /\\ Next => IndInv'", 'IndInit', 'IndInv', 1),
                                        ('IndInv => L2Increasing /\\ TimeMonotone /\\ FinalPrefix', 'IndInit', 'Structure', 0),
                                        ("IndInv /\\ Next => FinalStays (final outputs are never deleted or un-finalized)", 'IndInit', 'FinalStays', 1)],
-                          invariants=['IndInv', 'Structure', 'FinalStays'], properties=[], timeout=dict(quick=300, thorough=600)),
+                          invariants=['IndInv', 'Structure', 'FinalStays'], properties=[], timeout=dict(quick=1500, thorough=7200)),
     # ---- the same fragment with no bound at all, proved with the TLA+ proof system --------------------
     'l1.oracle-proof': dict(kind='tlaps', module='OutputOracleProof', theorems=['InitInv', 'NextInv', 'StructureHolds', 'FinalIrreversible', 'Safety'],
-                            invariants=['IndInv', 'Structure', 'FinalStays'], properties=[], timeout=dict(quick=300, thorough=600)),
+                            invariants=['IndInv', 'Structure', 'FinalStays'], properties=[], timeout=dict(quick=1500, thorough=7200)),
     # ---- both chains + off-chain roles (Bridge.tla) --------------------------------------------
     'br.one': dict(module='MC_Bridge', fam='one', walker='bridge-walk', scale=U63,
                    invariants=['Inv_Solvency', 'Inv_Completeness', 'Inv_NoStuck', 'Inv_Holdings', 'Inv_DrainedOK'], properties=['P_Flow'],
-                   failcap=dict(quick=1, thorough=2), timeout=dict(quick=420, thorough=3000)),
+                   failcap=dict(quick=1, thorough=2), timeout=dict(quick=1680, thorough=9000)),
     'br.live': dict(kind='liveness', module='MC_BridgeLive', spec='LiveSpec', temporal=['EventuallyDrained', 'SolvencyAlways'], invariants=[], properties=['EventuallyDrained', 'SolvencyAlways'],
-                    timeout=dict(quick=300, thorough=900)),
+                    timeout=dict(quick=1500, thorough=7200)),
     # ---- L2 (x/opchild) -----------------------------------------------------------------------
     'l2.relay': dict(module='MC_L2', fam='relay', walker='l2-walk', scale=U63,
                      invariants=['Inv_Supply'], properties=['P_Relay', 'P_NoEffectOnReject'],
-                     failcap=dict(quick=2, thorough=3), timeout=dict(quick=300, thorough=1800)),
+                     failcap=dict(quick=2, thorough=3), timeout=dict(quick=1500, thorough=7200)),
     'l2.deposit': dict(module='MC_L2', fam='deposit', walker='l2-walk', scale=U63,
                        invariants=['Inv_Supply'], properties=['P_Relay', 'P_Deposit', 'P_Withdraw', 'P_NoEffectOnReject'],
-                       failcap=dict(quick=2, thorough=3), timeout=dict(quick=300, thorough=1800)),
+                       failcap=dict(quick=2, thorough=3), timeout=dict(quick=1500, thorough=7200)),
     'l2.auth': dict(module='MC_L2', fam='auth', walker='l2-walk', scale=U63,
                     invariants=[], properties=['P_Auth', 'P_NoEffectOnReject'],
-                    failcap=dict(quick=2, thorough=3), timeout=dict(quick=300, thorough=1800)),
+                    failcap=dict(quick=2, thorough=3), timeout=dict(quick=1500, thorough=7200)),
     # ---- L2 validator set ---------------------------------------------------------------------
     'val.valset': dict(module='MC_Val', fam='valset', walker='val-walk', scale='1',
                        invariants=[], properties=['P_ValSet', 'P_Plan', 'P_NoEffectOnReject'],
-                       failcap=dict(quick=1, thorough=2), timeout=dict(quick=300, thorough=2400)),
+                       failcap=dict(quick=1, thorough=2), timeout=dict(quick=1500, thorough=7200)),
     'val.plan': dict(module='MC_Val', fam='plan', walker='val-walk', scale='1',
                      invariants=[], properties=['P_ValSet', 'P_Plan', 'P_NoEffectOnReject'],
-                     failcap=dict(quick=1, thorough=2), timeout=dict(quick=300, thorough=2400)),
+                     failcap=dict(quick=1, thorough=2), timeout=dict(quick=1500, thorough=7200)),
     # ---- oracle relay (C15) --------------------------------------------------------------------
     'or.oracle': dict(module='MC_Oracle', fam='oracle', walker='oracle-walk', scale='1',
                       invariants=[], properties=['P_Oracle', 'P_NoEffectOnReject'],
-                      failcap=dict(quick=1, thorough=2), timeout=dict(quick=300, thorough=2400)),
+                      failcap=dict(quick=1, thorough=2), timeout=dict(quick=1500, thorough=7200)),
     'or.disabled': dict(module='MC_Oracle', fam='disabled', walker='oracle-walk', scale='1',
                         invariants=[], properties=['P_Oracle', 'P_NoEffectOnReject'],
-                        failcap=dict(quick=1, thorough=2), timeout=dict(quick=300, thorough=2400)),
+                        failcap=dict(quick=1, thorough=2), timeout=dict(quick=1500, thorough=7200)),
     # ---- determinism (C18): K fresh instances on behaviours of the other models; Agreement checked by TLC on the recorded trace
     'det.replicas': dict(kind='replicas', module='Replicas', trace_module='Trace_Replicas',
                          sources=dict(quick=[('val.valset', 'val'), ('val.plan', 'val'), ('or.oracle', 'oracle'), ('l2.deposit', 'l2'), ('l1.auth', 'l1')],
                                       thorough=[('val.valset', 'val'), ('val.plan', 'val'), ('or.oracle', 'oracle'), ('l2.deposit', 'l2'), ('l2.auth', 'l2'), ('l1.auth', 'l1'), ('l1.ledger', 'l1'), ('l1.perm', 'l1')]),
                          consts=dict(quick=dict(paths=40, length=30, replicas=4), thorough=dict(paths=400, length=60, replicas=8)),
-                         invariants=['Agreement'], properties=[], timeout=dict(quick=300, thorough=3000)),
+                         invariants=['Agreement'], properties=[], timeout=dict(quick=1500, thorough=9000)),
     # ---- formats / purity (C17): enumeration of a TLA+-defined function and replay --------------
     'fmt.formats': dict(kind='formats', module='MC_Formats', sm_module='SliceMem',
                         consts=dict(quick=dict(MaxTree=9, MaxProof=6, NItems=3, rounds=60), thorough=dict(MaxTree=16, MaxProof=8, NItems=4, rounds=1500)),
-                        invariants=['Pure', 'LayoutFree'], properties=[], timeout=dict(quick=300, thorough=1800)),
+                        invariants=['Pure', 'LayoutFree'], properties=[], timeout=dict(quick=1500, thorough=7200)),
     # ---- mempool admission (C20): enumeration of TLA+-defined decision functions and replay ----
-    'ante.cases': dict(kind='cases', module='MC_Ante', checker='ante-check', invariants=[], properties=[], timeout=dict(quick=300, thorough=2400)),
+    'ante.cases': dict(kind='cases', module='MC_Ante', checker='ante-check', invariants=[], properties=[], timeout=dict(quick=1500, thorough=7200)),
 }
 
 # E3: seeded random histories recorded from the real keepers, validated by TLC against the same Step
 TRACES = {
-    'l1': dict(driver='l1-drive', module='Trace_L1', mod='l1', runs=dict(quick=12, thorough=150), length=dict(quick=200, thorough=400), timeout=dict(quick=300, thorough=3000),
+    'l1': dict(driver='l1-drive', module='Trace_L1', mod='l1', runs=dict(quick=12, thorough=150), length=dict(quick=200, thorough=400), timeout=dict(quick=1500, thorough=9000),
                inv_tags=dict(Contiguous=['C11'], L2Increasing=['C11'], FinalPrefix=['C11', 'C05'], LastFinalQuery=['C05'], PositivePeriod=['C05'], NoStray=['C01'])),
 }
-TRACES['l2'] = dict(driver='l2-drive', module='Trace_L2', mod='l2', runs=dict(quick=12, thorough=150), length=dict(quick=200, thorough=400), timeout=dict(quick=300, thorough=3000),
+TRACES['l2'] = dict(driver='l2-drive', module='Trace_L2', mod='l2', runs=dict(quick=12, thorough=150), length=dict(quick=200, thorough=400), timeout=dict(quick=1500, thorough=9000),
                     inv_tags=dict(SupplyMatchesBalances=['C09', 'C07'], NoStray=['C09', 'C07'], SeqL1Step=['C06'], SeqL2Step=['C09', 'C07'], PairImmutable=['C09'], NoEffectOnReject=['C06', 'C07', 'C09']))
-TRACES['val'] = dict(driver='val-drive', module='Trace_Val', mod='val', runs=dict(quick=10, thorough=120), length=dict(quick=250, thorough=500), timeout=dict(quick=300, thorough=3000),
+TRACES['val'] = dict(driver='val-drive', module='Trace_Val', mod='val', runs=dict(quick=10, thorough=120), length=dict(quick=250, thorough=500), timeout=dict(quick=1500, thorough=9000),
                      inv_tags=dict(Halted=['C13'], BatchRejectedByEngine=['C13'], IndexBijective=['C13'], Capacity=['C13'], EngineAgrees=['C13']))
-TRACES['br'] = dict(driver='bridge-drive', module='Trace_Bridge', mod='br', runs=dict(quick=9, thorough=40), length=dict(quick=200, thorough=250), timeout=dict(quick=400, thorough=3600),
+TRACES['br'] = dict(driver='bridge-drive', module='Trace_Bridge', mod='br', runs=dict(quick=9, thorough=40), length=dict(quick=200, thorough=250), timeout=dict(quick=1600, thorough=10800),
                     inv_tags=dict(Solvency=['C08'], Holdings=['C08'], Flow=['C08'], NoStuckTransfer=['C04'], Completeness=['C04', 'C08'], DrainedAfterCanonicalSchedule=['C08', 'C04']))
 
-TRACES['or'] = dict(driver='oracle-drive', module='Trace_Oracle', mod='or', runs=dict(quick=10, thorough=120), length=dict(quick=200, thorough=400), timeout=dict(quick=300, thorough=3000),
+TRACES['or'] = dict(driver='oracle-drive', module='Trace_Oracle', mod='or', runs=dict(quick=10, thorough=120), length=dict(quick=200, thorough=400), timeout=dict(quick=1500, thorough=9000),
                     inv_tags=dict(QuorumSound=['C15'], HeightNotOlder=['C15'], HostSetOnlyForward=['C15'], NoEffectOnReject=['C15'], ClientBound=['C15', 'C12']))
 
 # property -> engines.  `floor`: minimum counts below which the run is considered vacuous (exit 2).
